@@ -190,3 +190,149 @@ Proof.
 Qed.
 
 End GenP.
+
+(* ------------------------------------------------------------------ failures propagate (C18) *)
+Definition is_done {A} (r : res A) : bool := match r with Done _ => true | _ => false end.
+
+Lemma rbind_not_done {A B} (r : res A) (g : A -> res B) : is_done r = false -> is_done (rbind r g) = false.
+Proof. destruct r; cbn; congruence. Qed.
+
+Lemma rmap_not_done {A B} (F : A -> res B) (l : list A) x : In x l -> is_done (F x) = false -> is_done (rmap F l) = false.
+Proof.
+  induction l as [|y r IH]; intros Hin Hx; [contradiction|]. cbn [rmap].
+  destruct Hin as [->|Hin].
+  - apply rbind_not_done. exact Hx.
+  - destruct (F y); cbn [rbind]; try reflexivity. apply rbind_not_done. apply IH; assumption.
+Qed.
+
+Section Fail.
+Variable idf : str -> str.
+Variable cf : cfg.
+Variable defs : list (str * schema).
+Notation gen := (gen idf cf defs).
+
+(* the ungeneratable elements themselves *)
+Lemma unknown_type_fails fmt ptr b : primitive cf SUnknown fmt ptr b = GErr.
+Proof. reflexivity. Qed.
+
+Lemma missing_definition_fails f self sub s scope x :
+  c_enum (s_con s) = None -> c_ref (s_con s) = Some x -> lookup x defs = None -> gen (S f) MType self sub s scope = GErr.
+Proof. intros He Hr Hl. destruct f; cbn [Gen.gen]; rewrite He, Hr, Hl; reflexivity. Qed.
+
+Lemma empty_enum_fails f self sub s scope : c_enum (s_con s) = Some [] -> gen (S f) MType self sub s scope = GErr.
+Proof. intros He. destruct f; cbn [Gen.gen]; rewrite He; reflexivity. Qed.
+
+(* a property that cannot be generated makes its object fail ... *)
+Theorem object_fails_with_property f self sub s scope k p :
+  plain_object s -> In (k, p) (s_props s) ->
+  (forall sc, is_done (gen f MInline self false p sc) = false) ->
+  is_done (gen (S f) MType self sub s scope) = false.
+Proof.
+  intros (He & Hr & Ht & Hp & Hall & Hany) Hin Hbad.
+  destruct (gen (S f) MType self sub s scope) as [[t b]| | |] eqn:E; try reflexivity. exfalso.
+  destruct (gen_type_object idf cf defs f self sub s scope t b (conj He (conj Hr (conj Ht (conj Hp (conj Hall Hany))))) E) as (infos & Hmap & _).
+  destruct (prop_names_In idf _ _ _ Hin) as [fname Hn].
+  assert (Hnd : is_done (rmap (gen_field defs (fun p sc => gen f MInline self false p sc) (s_con s) self scope) (prop_names idf (s_props s))) = false).
+  { eapply rmap_not_done; [exact Hn|]. cbn [gen_field]. apply rbind_not_done. apply Hbad. }
+  rewrite Hmap in Hnd. discriminate.
+Qed.
+
+(* ... and so does every enclosing declaration / inline position *)
+Lemma declared_fails f self sub s scope :
+  c_enum (s_con s) = None -> is_done (gen f MType self sub s scope) = false -> is_done (gen (S f) MDeclared self sub s scope) = false.
+Proof. intros He H. rewrite gen_declared_eq by exact He. apply rbind_not_done. exact H. Qed.
+
+Lemma inline_object_fails f self sub s scope :
+  c_enum (s_con s) = None -> c_ref (s_con s) = None -> s_all_of s = [] -> s_any_of s = [] -> c_types (s_con s) = [SObject] ->
+  is_done (gen f MDeclared self sub s scope) = false -> is_done (gen (S f) MInline self sub s scope) = false.
+Proof. intros He Hr Ha Hy Ht H. rewrite gen_inline_object_eq by assumption. exact H. Qed.
+
+Lemma inline_array_fails f self sub s scope it :
+  c_enum (s_con s) = None -> c_ref (s_con s) = None -> s_all_of s = [] -> s_any_of s = [] -> c_types (s_con s) = [SArray] ->
+  s_items s = Some it -> (forall sc, is_done (gen f MInline self false it sc) = false) ->
+  is_done (gen (S f) MInline self sub s scope) = false.
+Proof.
+  intros He Hr Ha Hy Ht Hi Hbad. destruct f; cbn [Gen.gen]; rewrite He, Hr, Ha, Hy, Ht; unfold determine_type; rewrite Ht; cbn; rewrite Hi;
+    [reflexivity|]. apply rbind_not_done. apply Hbad.
+Qed.
+
+(* a definition that cannot be generated fails the file *)
+Theorem file_fails_with_definition root root_name name d :
+  In (name, d) defs -> is_done (gen gen_fuel MDeclared (Some name) false d (idf name)) = false ->
+  is_done (gen_file idf cf defs root root_name) = false.
+Proof.
+  intros Hin Hbad. unfold gen_file. apply rbind_not_done.
+  apply rmap_not_done with (x := (name, d)); [apply sort_props_In; exact Hin|]. cbn [fst snd]. apply rbind_not_done. exact Hbad.
+Qed.
+End Fail.
+
+(* ------------------------------------------------------------------ --only-models (C16) *)
+(* --only-models never attaches a method; everything else about the declared type is decided before
+   the option is looked at (generateDeclaredType returns right after AddDecl) *)
+Definition no_method (t : gty) : bool :=
+  match t with
+  | TStruct _ _ (Some _) | TNamed _ _ (Some _) => false
+  | _ => true
+  end.
+
+Theorem declare_only_models_no_method mn scope sub c t0 b0 t b :
+  is_named_ty t0 = false -> declare (mkCfg mn true) scope sub c (t0, b0) = Done (t, b) -> no_method t = true.
+Proof.
+  unfold declare. intros EN H. rewrite EN in H. cbn [g_only_models] in H.
+  destruct t0 as [| | | | | | | | | |name fs plan| | |]; try (inversion H; subst; reflexivity).
+  destruct name; [|inversion H; subst; reflexivity]. destruct plan; inversion H; subst; reflexivity.
+Qed.
+
+(* and the declared type is the same as in a full run once the methods are dropped *)
+Definition strip_plan (t : gty) : gty :=
+  match t with
+  | TStruct n fs _ => TStruct n fs None
+  | TNamed n u _ => TNamed n u None
+  | _ => t
+  end.
+
+Theorem declare_only_models_same_type mn scope sub c t0 b0 t b t' b' :
+  is_named_ty t0 = false ->
+  declare (mkCfg mn false) scope sub c (t0, b0) = Done (t, b) -> declare (mkCfg mn true) scope sub c (t0, b0) = Done (t', b') ->
+  strip_plan t = strip_plan t' /\ b = b'.
+Proof.
+  unfold declare. intros EN H1 H2. rewrite EN in H1, H2. cbn [g_only_models] in H1, H2.
+  destruct t0 as [| | | | | | | | | |name fs plan| | |]; try (inversion H1; inversion H2; subst; split; reflexivity).
+  destruct name; [|inversion H1; inversion H2; subst; split; reflexivity].
+  destruct plan; inversion H1; inversion H2; subst; split; reflexivity.
+Qed.
+
+(* ------------------------------------------------------------------ references (C10) *)
+Section Refs.
+Variable idf : str -> str.
+Variable cf : cfg.
+Variable defs : list (str * schema).
+Notation gen := (gen idf cf defs).
+
+(* every reference to a definition (that has a type or properties) is the SAME named type, whatever the
+   referring position, scope, mode or options: one Go type per definition, shared by all referrers *)
+Theorem reference_is_shared f self sub s scope x d :
+  c_enum (s_con s) = None -> c_ref (s_con s) = Some x -> lookup x defs = Some d ->
+  (c_types (s_con d) <> [] \/ s_props d <> []) ->
+  gen (S f) MType self sub s scope = Done (TRef x, c_bounds (s_con s)).
+Proof.
+  intros He Hr Hl Hd. destruct f; cbn [Gen.gen]; rewrite He, Hr, Hl;
+    destruct (c_types (s_con d)), (s_props d); try reflexivity; destruct Hd; contradiction.
+Qed.
+
+(* a definition reached through generateDeclaredType / generateTypeInline is not declared again *)
+Theorem reference_not_redeclared f self sub s scope x d :
+  c_enum (s_con s) = None -> c_ref (s_con s) = Some x -> lookup x defs = Some d ->
+  (c_types (s_con d) <> [] \/ s_props d <> []) ->
+  gen (S (S f)) MDeclared self sub s scope = Done (TRef x, c_bounds (s_con s)) /\
+  gen (S (S (S f))) MInline self sub s scope = Done (TRef x, c_bounds (s_con s)).
+Proof.
+  intros He Hr Hl Hd.
+  assert (H1 : gen (S (S f)) MDeclared self sub s scope = Done (TRef x, c_bounds (s_con s))).
+  { rewrite gen_declared_eq by exact He. rewrite (reference_is_shared f self sub s scope x d He Hr Hl Hd). reflexivity. }
+  split; [exact H1|].
+  assert (E : gen (S (S (S f))) MInline self sub s scope = gen (S (S f)) MDeclared self sub s scope).
+  { cbn [Gen.gen]. rewrite He, Hr. reflexivity. }
+  rewrite E. exact H1.
+Qed.
+End Refs.
